@@ -12,6 +12,7 @@ from .observe import run as brun
 
 VT_LENS = (1, 2, 3, 5)
 _vt_seen = set()       # per-process: strands whose check round trip was already exercised
+_LAST = {}             # the last completed case, written out as a concrete sample
 
 
 def tname(T):
@@ -50,6 +51,11 @@ def rt_case(r, which, k, G, acc, start, T, tab, bits, fast, vt=True, degs=None):
         r.v(pre + what, 'rt', case_of(k, G, start, T, bits, fast), 'a strand', repr(s)[:200])
         return None
     r.maxi('encode_loops', loops)
+    if any(bits):
+        r.nontriv += 1
+        _LAST['case'] = {'k': k, 'accessor': G if len(G) <= 16 else 'order-%d graph with %d arcs' % (k, sum(1 for row in G for x in row if x >= 0)),
+                         'start': start, 'table': T if (T is None or len(T) <= 16) else 'latin table', 'message': ''.join(map(str, bits)) if len(bits) <= 64 else '%d bits' % len(bits),
+                         'mode': 'fast' if fast else 'normal', 'strand': s if len(s) <= 80 else s[:77] + '...'}
     if which == 'C05':
         try:
             exp = O.ref_encode(bits, G, start, T, fast)
@@ -300,8 +306,8 @@ def w_g1(args):
                 for bits in U.all_bits(2):
                     diff_case(r, which, 1, G, G2, start, bits)
             r.states += r.evals - n0
-    r.nontriv = r.states  # refined by callers through counters
-    r.sample({'k': 1, 'arc_code': '0x%04x' % (hi - 1), 'what': 'every well-formed start, messages and table layers per plan'}, 1)
+    if _LAST.get('case'):
+        r.sample(_LAST['case'], 1)
     return r
 
 
@@ -371,10 +377,8 @@ def w_graphs(args):
             n0 = r.evals
             explore_class(r, which, k, G, start, R, plan)
             r.states += r.evals - n0
-    if items:
-        k, G, starts, Ls = items[-1]
-        r.sample({'k': k, 'arcs': [(u, j) for u in range(len(G)) for j in range(4) if G[u][j] >= 0][:40], 'starts': list(starts)[:8]}, 1)
-    r.nontriv = r.states
+    if _LAST.get('case'):
+        r.sample(_LAST['case'], 1)
     return r
 
 
@@ -444,7 +448,8 @@ def w_long(args):
     if which == 'C01' and not fast:
         vt_case(r, k, G, acc, start, T, tab, bits, fast, 4)
     r.states += 1
-    r.nontriv += 1
+    if _LAST.get('case'):
+        r.sample(_LAST['case'], 1)
     r.maxi('long_message_bits', len(bits))
     r.ctr['long_family_cases'] += 1
     return r
